@@ -1,4 +1,5 @@
 #include <assert.h>
+#include <limits.h>
 #include <stdbool.h>
 #include <stdlib.h>
 #include <string.h>
@@ -115,6 +116,7 @@ designator(struct scope *s, struct initparser *p)
 {
 	struct type *t;
 	char *name;
+	unsigned long long idx;
 
 	p->last = &p->init;
 	p->sub = p->cur;
@@ -125,7 +127,10 @@ designator(struct scope *s, struct initparser *p)
 			if (t->kind != TYPEARRAY)
 				error(&tok.loc, "index designator is only valid for array types");
 			next();
-			p->sub->u.idx = intconstexpr(s, false) * t->base->size;
+			idx = intconstexpr(s, false);
+			if (t->base->size && idx >= ULLONG_MAX / t->base->size)
+				error(&tok.loc, "index designator is too large");
+			p->sub->u.idx = idx * t->base->size;
 			if (p->sub->u.idx >= t->size) {
 				if (!t->incomplete)
 					error(&tok.loc, "index designator is larger than array length");
